@@ -5,7 +5,7 @@ CONSTANTS
   MaxVersionArgs = {0, 1, 2, 3}
   CustomPolicies = {"oddid", "oldserial", "none"}
   IdArgs = {1, 2, 3, 4, 5, 6, 9}
-  SerialArgs = {1, 2, 3, 7}
+  SerialArgs = {0, 1, 2, 3, 7}
   MaxCommits = 5
   MaxDepth = 12
 CONSTRAINT Bound
